@@ -2,7 +2,9 @@
 """verify the sub-agents' property-PRESERVING rewrites (variant `h`) in a scratch worktree and copy
 them to /verif/seeded/harmless/R3_<Cxx>.diff (+ .json); tests must pass and the agent's demo must
 exit 0 with and without the change"""
-import json, os, subprocess, shutil
+import json, os, subprocess, shutil, sys
+VAR = sys.argv[1] if len(sys.argv) > 1 else "h"
+PREFIX = sys.argv[2] if len(sys.argv) > 2 else "R3"
 WT = "/tmp/wt/verify"
 PY = "/venv/bin/python"
 
@@ -14,13 +16,13 @@ def sh(cmd, cwd=WT, timeout=600):
 
 for n in range(1, 21):
     cid = f"C{n:02d}"
-    src = f"/tmp/wt/{cid}/out/h"
-    if not os.path.exists(f"{src}/patch.diff"):
+    src = f"/tmp/wt/{cid}/out/{VAR}"
+    if not (os.path.exists(f"{src}/patch.diff") and os.path.exists(f"{src}/meta.json")):
         continue
     sh("git checkout -q -- . && git clean -fdq")
     rc, o = sh(f"git apply {src}/patch.diff")
     if rc != 0:
-        print(cid, "h DOES NOT APPLY", o[-200:]); continue
+        print(cid, VAR, "DOES NOT APPLY", o[-200:]); continue
     rc_t, o_t = sh(f"{PY} -m pytest -q -p no:cacheprovider -x 2>&1 | tail -1")
     rc_d = 0
     if os.path.exists(f"{src}/demo.py"):
@@ -30,9 +32,9 @@ for n in range(1, 21):
     _, diff = sh("git diff")
     sh("git checkout -q -- .")
     ok = "290 passed" in o_t and rc_d == 0
-    print(cid, "h", "ok" if ok else "rejected", o_t.strip()[-30:], rc_d)
+    print(cid, VAR, "ok" if ok else "rejected", o_t.strip()[-30:], rc_d)
     if ok:
-        open(f"/verif/seeded/harmless/R3_{cid}.diff", "w").write(diff)
+        open(f"/verif/seeded/harmless/{PREFIX}_{cid}.diff", "w").write(diff)
         meta = json.load(open(f"{src}/meta.json")) if os.path.exists(f"{src}/meta.json") else {}
         meta["verified"] = "applies to /repo HEAD; 290 tests pass; agent's demo exits 0 with the change"
-        json.dump(meta, open(f"/verif/seeded/harmless/R3_{cid}.json", "w"), indent=1)
+        json.dump(meta, open(f"/verif/seeded/harmless/{PREFIX}_{cid}.json", "w"), indent=1)
